@@ -218,6 +218,7 @@ pub fn run(ctx: &Ctx) -> i32 {
         random_cases: ctx.tier.pick(400_000, 20_000_000),
         build_random: &|e| b(e, Force::default()),
         classify: &|c, j, t: &Tag, s| classify(c, j, s, &t.0, t.1, t.2),
+        all_quirks: false,
     }
     .run();
     stats.exhaustive_subspaces.insert("form x data register x address register".into(), fs.iter().map(|f| nregs(f.0) as u64 * 8).sum());
